@@ -154,26 +154,37 @@ func Run(seed int64, n int, outDir string) error {
 	}
 
 	// 2. the real message path: one long history on a 5-validator world
-	wr := newWorld(5)
+	wr := newWorldAccts(5, 8)
 	defer wr.h.Close()
 	rh, err := newRealHistory(wr, r)
 	if err != nil {
 		return err
 	}
 	realBlocks := n / 5
-	for done := 0; done < realBlocks; {
-		blocks, dup, oor, err := rh.round()
+	// the first rounds are the fixed deputy histories (corpus), then random and directed rounds mixed
+	fixed := []int{rndOwnAndDeputy, rndDeputyOnly, rndReRegister, rndOwnAndDeputy}
+	for done, rnd := 0, 0; done < realBlocks; rnd++ {
+		kind := rndRandom
+		if rnd < len(fixed) {
+			kind = fixed[rnd]
+		} else if r.Chance(1, 3) {
+			kind = emit.Pick(r, rndOwnAndDeputy, rndReRegister, rndDeputyOnly)
+		}
+		blocks, oor, err := rh.round(kind)
 		if err != nil {
 			return fmt.Errorf("real history: %w", err)
 		}
-		_ = dup
+		tag := "real"
+		if kind != rndRandom {
+			tag = "real-deputy"
+		}
 		for _, b := range blocks {
-			addBlock(b, "real", oor)
+			addBlock(b, tag, oor)
 			done++
 		}
 		for _, sb := range rh.subs {
 			cf.Add(sb.coq())
-			st.Info(map[string]any{"kind": "submit-validity-proof", "shards": sb.N, "indices": sb.Indices, "accepted": sb.Accepted, "error_class": sb.Err})
+			st.Info(map[string]any{"kind": "submit-validity-proof", "for_validator": sb.Val, "signed_by": sb.Via, "shards": sb.N, "indices": sb.Indices, "accepted": sb.Accepted, "error_class": sb.Err})
 			st.Evaluations++
 			st.Count("submission")
 		}
